@@ -57,6 +57,7 @@ def rejection_sites(ck: Check, q: str) -> List[str]:
     from ..engine.walker import exc_class
     s = ck.summ(q, 0)
     out = set()
+    seen_n: Dict[str, int] = {}
     for e in s.events:
         if e.chain:
             continue
@@ -88,6 +89,10 @@ def rejection_sites(ck: Check, q: str) -> List[str]:
                 if mark in msg:
                     msg = msg[:msg.index(mark)]
             item = "%s: %s" % (exc_class(e).split(".")[-1], msg.strip()[:24].strip())
+            # raise statements with the same class and text are counted, not merged (`raise E()` four times is four refusals)
+            seen_n[item] = seen_n.get(item, 0) + 1
+            if seen_n[item] > 1:
+                item = "%s ~%d" % (item, seen_n[item])
             # (marked: counts as new only when a recorded refusal went missing, i.e. when it is an existing raise that was changed)
             out.add(("?" + item) if replaces_lookup_failure else item)
         elif e.kind == "call":
@@ -432,6 +437,50 @@ def late_binding(fn: ast.AST) -> List[Tuple[int, str, str]]:
     return out
 
 
+def mutated_while_iterated(fn: ast.AST) -> List[Tuple[int, str]]:
+    """`for x in xs:` whose body changes the length of xs (remove / pop / insert / append / extend / del xs[i] / clear): the iteration skips
+    or repeats elements. Iterating a copy (`list(xs)`, `xs[:]`, `sorted(xs)`, `enumerate(list(xs))`) is fine; so is a change immediately
+    followed by leaving the loop (`del xs[i]; break`)."""
+    out = []
+    grow = {"remove", "pop", "insert", "append", "extend", "clear", "popleft", "appendleft", "discard", "add", "update", "setdefault", "popitem"}
+    for loop in ast.walk(fn):
+        if not isinstance(loop, ast.For):
+            continue
+        it = loop.iter
+        if isinstance(it, ast.Call) and isinstance(it.func, ast.Name) and it.func.id == "enumerate" and it.args:
+            it = it.args[0]
+        if isinstance(it, ast.Call) and isinstance(it.func, ast.Attribute) and it.func.attr in ("items", "keys", "values") and not it.args:
+            it = it.func.value
+        if not isinstance(it, (ast.Name, ast.Attribute)):
+            continue        # a copy / a call / a slice: not the container itself
+        key = ast.unparse(it)
+
+        def scan(body: List[ast.stmt]) -> None:
+            for i, st in enumerate(body):
+                nxt = body[i + 1] if i + 1 < len(body) else None
+                leaves = isinstance(nxt, (ast.Break, ast.Return)) or isinstance(st, (ast.Break, ast.Return))
+                hit = None
+                for n in ([st] if not isinstance(st, (ast.If, ast.For, ast.While, ast.With, ast.Try)) else []):
+                    for x in ast.walk(n):
+                        if isinstance(x, ast.Call) and isinstance(x.func, ast.Attribute) and x.func.attr in grow and ast.unparse(x.func.value) == key:
+                            hit = x
+                        if isinstance(x, ast.Delete):
+                            for t in x.targets:
+                                if isinstance(t, ast.Subscript) and ast.unparse(t.value) == key:
+                                    hit = x
+                if hit is not None and not leaves:
+                    out.append((hit.lineno, "%s changes %s while `for %s in %s` is running" % (ast.unparse(hit)[:50], key, ast.unparse(loop.target), key)))
+                for fld in ("body", "orelse", "finalbody"):
+                    sub = getattr(st, fld, None)
+                    if isinstance(sub, list) and sub and isinstance(sub[0], ast.stmt) and not isinstance(st, (ast.For, ast.While, ast.FunctionDef)):
+                        scan(sub)
+                if isinstance(st, ast.Try):
+                    for h in st.handlers:
+                        scan(h.body)
+        scan(loop.body)
+    return out
+
+
 def rule_one_shot_iterators(ck: Check, rule: str, files: Sequence[str]) -> None:
     """premise of every value-level rule: an expression the rules read as a sequence is not a half-consumed iterator"""
     gens = {fi.name for fi in ck.repo.all_functions()
@@ -471,6 +520,22 @@ def rule_one_shot_iterators(ck: Check, rule: str, files: Sequence[str]) -> None:
                         "the last key, checks run on the last element only)" % (text, nm, nm), "%s:%d" % (fi.module.path, line))
     if not bad2:
         ck.ok(rule, "no generator expression / lambda created in a loop outlives the iteration it reads", "", "")
+    # third: a loop visits the elements its domain had - the domain is not resized underneath it
+    ctl3 = ast.parse("def f(items, have):\n    for item in items:\n        if item in have:\n            items.remove(item)\n").body[0]
+    ctl3_ok = ast.parse("def f(items, have):\n    for i, item in enumerate(items):\n        if item in have:\n            del items[i]\n            break\n").body[0]
+    if len(mutated_while_iterated(ctl3)) != 1 or mutated_while_iterated(ctl3_ok):
+        ck.unknown(rule, "positive control (resized while iterated)", "the scan did not behave on its control snippets")
+        return
+    bad3 = 0
+    for fi in ck.repo.all_functions():
+        if fi.module.path.replace(ck.repo.root + "/", "") not in files and not any(fi.module.path.endswith(f) for f in files):
+            continue
+        for line, text in mutated_while_iterated(ck.repo.raw_function(fi)):
+            bad3 += 1
+            ck.violated(rule, "%s: the loop's domain keeps its length while the loop runs" % short(fi.qualname),
+                        "%s — the iteration then skips the element after each removal (or never ends)" % text, "%s:%d" % (fi.module.path, line))
+    if not bad3:
+        ck.ok(rule, "no loop resizes the container it iterates", "", "")
 
 
 def partial_on_empty(fn: ast.AST) -> List[Tuple[int, str]]:
